@@ -19,7 +19,7 @@ def main(argv):
                 print("VIOLATION property=%s replay=%s roles=%s" % (rec["property"], argv[1], rp["roles"]))
                 return 1
             return 0
-        from vlib import mengine
+        from mirsym import mengine
         return mengine.replay_file(argv[1])
     prop = argv[0]
     tier = os.environ.get("VERIF_TIER", "quick")
